@@ -110,8 +110,11 @@ class Ctx:
               "wall_s": round(time.time() - self.t0, 1), "violations": getattr(self, "nviol", 0),
               "violation_signatures": getattr(self, "per_sig", {}),
               "known_findings_hit": [k["id"] for k in self.known_hits], "notes": self.notes}
-        os.makedirs(os.path.join(VERIF, "evidence"), exist_ok=True)
-        with open(os.path.join(VERIF, "evidence", self.pid + ".json"), "w") as f:
+        # a run against another tree (VERIF_REPO: seeded changes on a scratch copy) says nothing about /repo: its evidence
+        # goes next to the replays instead of replacing the evidence of the registered check
+        evdir = os.path.join(VERIF, "evidence") if "VERIF_REPO" not in os.environ else os.path.join(VERIF, "replays", "evidence-other-tree")
+        os.makedirs(evdir, exist_ok=True)
+        with open(os.path.join(evdir, self.pid + ".json"), "w") as f:
             json.dump(ev, f, indent=1, default=str)
         print("%s %s: %s in %.1fs" % (self.pid, self.tier, "VIOLATED" if self.violations else "ok",
                                        time.time() - self.t0))
